@@ -27,7 +27,11 @@ OnChord(u, v, p, q) == Prim(VAdd(VScale(p, u), VScale(q - p, v)))
 
 Objects ==
   {[cls |-> "point", rows |-> <<x>>] : x \in {InteriorPts[i] : i \in 1..Len(InteriorPts)} \cup {IdealPts[1], IdealPts[2]}}
-  \cup {[cls |-> "pair", rows |-> <<InteriorPts[2], InteriorPts[4]>>], [cls |-> "pair", rows |-> <<InteriorPts[3], IdealPts[2]>>]}
+  \cup {[cls |-> "pair", rows |-> <<InteriorPts[2], InteriorPts[4]>>], [cls |-> "pair", rows |-> <<InteriorPts[3], IdealPts[2]>>],
+        \* the same point twice, and two points at distance ~0.007 (for distance / direction code with special
+        \* branches for nearby points)
+        [cls |-> "pair", rows |-> <<InteriorPts[2], InteriorPts[2]>>],
+        [cls |-> "pair", rows |-> <<Pad(<<200, 1, 0>>), Pad(<<200, 0, 1>>)>>]}
   \cup {[cls |-> "segment", rows |-> <<OnChord(IdealPts[i], IdealPts[j], 1, 3), OnChord(IdealPts[i], IdealPts[j], 3, 5)>>,
           ends |-> <<IdealPts[i], IdealPts[j]>>] : i \in {1, 2}, j \in {3, 4}}
   \cup {[cls |-> "geodesic", rows |-> <<IdealPts[i], IdealPts[j]>>] : i \in {1, 5}, j \in {2, 3}}
